@@ -331,7 +331,7 @@ pub fn run(ctx: &Ctx) -> Outcome {
          distinct = distinct generated inputs (hash of the case parameters)",
     );
     install_panic_capture();
-    let target = ctx.q(3000u64, 40_000);
+    let target = ctx.q(3000u64, 4_000_000);
     let mut i = 0u64;
     while i < target && ctx.time_left() {
         let mut rng = Rng::derive(ctx.seed, 0xC19 + ctx.shard, i);
